@@ -46,16 +46,19 @@ func c02(c *core.Ctx) {
 	if c.Rule("R1", "success needs an observed clean end", 5) {
 		c02InprocRecheck(c)
 		c02HttpEOF(c)
+		c02TrailerIffNegative(c)
 		c.EndRule()
 	}
 	// ---------------------------------------------------------------- R2
 	if c.Rule("R2", "a handler error is always put on the wire (error frame / status header / trailer fields), and OK is rewritten to Internal on both HTTP paths", 6) {
 		c02HandlerErrOnWire(c)
+		c02NoFrameDropped(c)
 		c.EndRule()
 	}
 	// ---------------------------------------------------------------- R3
 	if c.Rule("R3", "all three status components (code, message, details) travel at every conversion site", 4) {
 		c02Components(c)
+		c02CodeWireType(c)
 		c.EndRule()
 	}
 	// ---------------------------------------------------------------- R4
@@ -766,4 +769,196 @@ func c02Components(c *core.Ctx) {
 	}
 	// client side: details header decoded in a loop and attached
 	_ = n
+}
+
+// c02TrailerIffNegative: in the HTTP response reader the trailer decode is
+// taken exactly on the "size < 0" edge (the writer negates the size iff end).
+func c02TrailerIffNegative(c *core.Ctx) {
+	p := c.P
+	readers := prefaceReaders(p)
+	n := 0
+	for _, fn := range p.LibFuncs("httpgrpc") {
+		if fn.Parent() != nil || !mustCallRoundTrip(fn, 0) {
+			continue
+		}
+		for _, call := range core.CallsIn(fn, func(_ *ssa.Call, ci core.CallInfo) bool { return ci.Static != nil && ci.Static.Parent() == nil }) {
+			// a decode into the stream's trailer field
+			isTr := false
+			for _, a := range call.Call.Args {
+				for _, o := range core.Origins(a) {
+					if fa, ok := o.(*ssa.FieldAddr); ok {
+						if _, f, _ := core.FieldOf(fa); f == "tr" {
+							isTr = true
+						}
+					}
+				}
+			}
+			if !isTr {
+				continue
+			}
+			n++
+			key := core.FuncName(fn) + ":trailer-iff-negative"
+			ok := core.GuardedExactlyBy(call, func(f core.Fact) bool {
+				k, isC := core.ConstInt(f.Y)
+				return isC && k == 0 && f.Op == token.LSS && isPrefaceResult(p, stripNum(f.X), readers)
+			})
+			c.Check(ok, key, call.Pos(), "the trailer frame is recognised exactly by size < 0", "the trailer decode is not taken exactly on the 'size < 0' edge: a zero-length data frame (an empty message) would be taken for the trailer, ending the stream as success and dropping what follows")
+		}
+	}
+	if n == 0 {
+		c.Fail("httpgrpc:trailer-decode", token.NoPos, "ANCHOR-MISSING: no trailer decode found in the response reader")
+	}
+}
+
+// frameKinds: field name → kind constant, derived from the frame type's kind method.
+func frameKinds(p *core.Prog) map[string]int64 {
+	out := map[string]int64{}
+	nt := p.Named("inprocgrpc", "frame")
+	if nt == nil {
+		return out
+	}
+	km := declaredMethod(p, nt, "kind")
+	if km == nil {
+		return out
+	}
+	for _, r := range core.Returns(km) {
+		k, ok := core.ConstInt(r.Results[0])
+		if !ok {
+			continue
+		}
+		// the innermost "field != nil" fact
+		for _, ef := range core.DominatingFacts(r) {
+			if ef.Fact.Op == token.NEQ && core.IsNilConst(ef.Fact.Y) && ef.B.Succs[ef.Succ] == r.Block() {
+				if _, f, ok := core.FieldOf(ef.Fact.X); ok {
+					out[f] = k
+				}
+				if fl, ok := ef.Fact.X.(*ssa.Field); ok {
+					st := fl.X.Type().Underlying().(*types.Struct)
+					out[st.Field(fl.Field).Name()] = k
+				}
+			}
+		}
+	}
+	return out
+}
+
+// c02NoFrameDropped: on the client side, once a frame was received, the
+// error-kind and data-kind edges must lead to consumption (err returned,
+// data copied) or to saving the frame for the next receive.
+func c02NoFrameDropped(c *core.Ctx) {
+	p := c.P
+	kinds := frameKinds(p)
+	kErr, ok1 := kinds["err"]
+	kData, ok2 := kinds["data"]
+	if !ok1 || !ok2 {
+		c.Fail("inprocgrpc.frame:kinds", token.NoPos, "ANCHOR-MISSING: cannot derive the error/data kind constants from the frame type's kind method (got %v)", kinds)
+		return
+	}
+	n := 0
+	for _, nt := range streamTypes(p, "ClientStream", "RecvMsg") {
+		if pkgSuffixOf(nt) != "inprocgrpc" {
+			continue
+		}
+		for i := 0; i < nt.NumMethods(); i++ {
+			fn := p.SSA.FuncValue(nt.Method(i))
+			if fn == nil || fn.Blocks == nil || len(msgReceives(fn, nt.Obj().Name())) == 0 {
+				continue
+			}
+			for _, ef := range core.EdgeFactsOf(fn) {
+				f := ef.Fact
+				if f.Op != token.EQL {
+					continue
+				}
+				k, isC := core.ConstInt(f.Y)
+				kc, isCall := f.X.(*ssa.Call)
+				if !isC || !isCall || core.InfoOf(&kc.Call).Name != "kind" || (k != kErr && k != kData) {
+					continue
+				}
+				// only frames received in this function (not the peeked one, which was saved earlier)
+				if !core.OriginIs(kc.Call.Args[0], func(o ssa.Value) bool {
+					cr, _, ok := core.CallResult(o)
+					return ok && core.InfoOf(&cr.Call).Static != nil && receivesFromParam(core.InfoOf(&cr.Call).Static)
+				}) {
+					continue
+				}
+				n++
+				what := "error"
+				if k == kData {
+					what = "data"
+				}
+				key := fmt.Sprintf("%s:%s-frame-consumed", core.FuncName(fn), what)
+				consumed := func(in ssa.Instruction) bool {
+					switch x := in.(type) {
+					case *ssa.Store:
+						if _, fld, ok := core.FieldOf(x.Addr); ok && fld == "last" && !core.IsNilConst(x.Val) {
+							return true
+						}
+					case *ssa.Call:
+						if isClonerCall(&x.Call, "Copy") {
+							return true
+						}
+					case *ssa.Return:
+						for _, res := range x.Results {
+							if core.IsErrorType(res.Type()) && core.OriginIs(res, func(o ssa.Value) bool {
+								if cr, _, ok := core.CallResult(o); ok && len(cr.Call.Args) == 1 {
+									return core.OriginIs(cr.Call.Args[0], func(a ssa.Value) bool { _, fld, ok := core.FieldOf(a); return ok && fld == "err" })
+								}
+								_, fld, ok := core.FieldOf(o)
+								return ok && fld == "err"
+							}) {
+								return true
+							}
+						}
+					}
+					return false
+				}
+				v := core.Walk(core.Loc{B: ef.B.Succs[ef.Succ], Idx: 0}, consumed, nil)
+				dropped := false
+				for _, r := range core.Returns(fn) {
+					if v[r] && !consumed(r) {
+						dropped = true
+					}
+				}
+				c.Check(!dropped, key, ef.If.Pos(), "a received "+what+" frame is returned/copied or saved for the next receive on every path", "a received "+what+" frame can be dropped (neither consumed nor saved as the peeked frame): the handler's "+map[string]string{"error": "error status", "data": "message"}[what]+" is lost and the stream then ends as success")
+			}
+		}
+	}
+	if n < 2 {
+		c.Fail("inprocgrpc:frame-kind-switches", token.NoPos, "ANCHOR-MISSING: expected kind switches on received frames in the client stream, found %d", n)
+	}
+}
+
+// c02CodeWireType: the unary status header carries the code as a signed
+// 32-bit number on both sides.
+func c02CodeWireType(c *core.Ctx) {
+	p := c.P
+	var srvType, cliBits string
+	var pos token.Pos
+	for _, hc := range httpHandlerClosures(p) {
+		if hc.Stream {
+			continue
+		}
+		for _, sc := range core.CallsIn(hc.Fn, func(call *ssa.Call, ci core.CallInfo) bool { return ci.Is("net/http.Header.Set") }) {
+			k, ok := core.ConstString(sc.Call.Args[1])
+			if !ok || !strings.Contains(strings.ToLower(k), "status") {
+				continue
+			}
+			if vc, _, isCall := core.CallResult(sc.Call.Args[2]); isCall && core.InfoOf(&vc.Call).Is("fmt.Sprintf") {
+				if args, unp := core.VariadicArgs(vc.Call.Args[1]); unp && len(args) >= 1 {
+					srvType = core.TypeStr(core.Strip(args[0]).Type().Underlying())
+					pos = sc.Pos()
+				}
+			}
+		}
+	}
+	for _, fn := range p.LibFuncs("httpgrpc") {
+		if fn.Signature.Results().Len() == 1 && core.TypeStr(fn.Signature.Results().At(0).Type()) == "*"+statusPkg+".Status" && len(fn.Params) == 1 {
+			for _, pc := range core.CallsIn(fn, func(_ *ssa.Call, ci core.CallInfo) bool { return ci.Is("strconv.ParseInt") || ci.Is("strconv.ParseUint") }) {
+				bits, _ := core.ConstInt(pc.Call.Args[2])
+				cliBits = fmt.Sprintf("%s/%d", core.InfoOf(&pc.Call).Name, bits)
+			}
+		}
+	}
+	ok := srvType == "int32" && cliBits == "ParseInt/32"
+	c.Check(ok, "unary-status-header:code-wire-type", pos, "server formats an int32, client parses a signed 32-bit integer", fmt.Sprintf("server formats the code as %s but the client parses it with %s: some (out-of-range) codes would not survive and fall back to the HTTP approximation", srvType, cliBits))
 }
